@@ -62,8 +62,37 @@ WIDE_POOL = ["p%d" % k for k in range(28)] + ["u%d" % k for k in range(6)] + ["k
 POOL += [(n, {"p": "Bool", "u": "BV", "k": "Int"}[n[0]]) for n in WIDE_POOL]
 # sizes around the usual thresholds of "bulk" shortcuts (8 / 16 / 32)
 WIDE_SIZES = [7, 8, 9, 15, 16, 17, 31, 32, 33]
+# custom (uninterpreted, arity 0) sorts and names that COLLIDE on purpose: SMT-LIB keeps sorts and
+# function symbols in separate namespaces, and identifies |a| with a.
+#   sort named like a symbol of another sort (S, T, b0, p1, u0), like one of its own elements (e0),
+#   like a theory function (and), like the printer's auxiliary let names (.def_0), needing quotes (a b);
+#   symbols named like sorts, like sort symbols of the theories (Int), like auxiliary names, needing quotes.
+SORTS = ["S", "T", "b0", "p1", "u0", "e0", "and", ".def_0", "a b"]
+SORT_ID = {n: k for k, n in enumerate(SORTS)}
+SORT_ELEMS = {"S": ["es0", "es1"], "T": ["et0", "et1"], "b0": ["eb0", "eb1"], "p1": ["ep0", "ep1"], "u0": ["eu0", "eu1"],
+              "e0": ["e0", "e1"], "and": ["ea0", "ea1"], ".def_0": ["ed0", "ed1"], "a b": ["eq0", "eq1"]}
+for _sn in SORTS:
+    POOL += [(n, "U:" + _sn) for n in SORT_ELEMS[_sn]]
+# symbols (of built-in sorts) named like a custom sort / oddly; b0, p1, u0 above collide too
+ODD_SYMS = [("S", "Bool"), ("T", "BV"), (".def_0", "Bool"), ("a b", "Bool"), ("Int", "Bool"), ("0x", "Int"), (".def_1", "BV")]
+POOL += ODD_SYMS
 SYM_ID = {n: k for k, (n, _) in enumerate(POOL)}
 SYM_SORT = dict(POOL)
+assert len(SYM_SORT) == len(POOL)
+
+
+def is_usort(sort):
+    return sort.startswith("U:")
+
+
+def pysmt_type(sort, mgr, types):
+    if sort == "Bool":
+        return types.BOOL
+    if sort == "Int":
+        return types.INT
+    if sort == "BV":
+        return types.BVType(BVW)
+    return mgr.env.type_manager.Type(sort[2:], 0)
 
 
 def domain(sort):
@@ -71,6 +100,8 @@ def domain(sort):
         return [False, True]
     if sort == "BV":
         return [("bv", BVW, k) for k in range(1 << BVW)]
+    if is_usort(sort):      # two abstract values, as in the reference solver
+        return [("u", sort[2:], 0), ("u", sort[2:], 1)]
     return list(range(-INT_RANGE, INT_RANGE + 1))
 
 
@@ -114,8 +145,10 @@ def ev(t, env):
         return a[0] <= a[1]
     if op == "lt":
         return a[0] < a[1]
-    if op in ("eq", "bveq"):
+    if op in ("eq", "bveq", "ueq"):
         return a[0] == a[1]
+    if op == "uite":
+        return a[1] if a[0] else a[2]
     if op == "plus":
         return a[0] + a[1]
     if op == "minus":
@@ -173,9 +206,7 @@ def to_pysmt(t, mgr, types):
     op = t[0]
     R = lambda k: to_pysmt(t[k], mgr, types)
     if op == "var":
-        s = SYM_SORT[t[1]]
-        ty = types.BOOL if s == "Bool" else (types.INT if s == "Int" else types.BVType(BVW))
-        return mgr.Symbol(t[1], ty)
+        return mgr.Symbol(t[1], pysmt_type(SYM_SORT[t[1]], mgr, types))
     if op == "true":
         return mgr.TRUE()
     if op == "false":
@@ -186,7 +217,7 @@ def to_pysmt(t, mgr, types):
         return mgr.BV(t[1] % (1 << BVW), BVW)
     table = {"not": mgr.Not, "and": mgr.And, "or": mgr.Or, "xor": mgr.Xor, "iff": mgr.Iff, "implies": mgr.Implies,
              "ite": mgr.Ite, "iite": mgr.Ite, "bvite": mgr.Ite, "le": mgr.LE, "lt": mgr.LT, "eq": mgr.Equals,
-             "bveq": mgr.Equals, "plus": mgr.Plus, "minus": mgr.Minus, "times": mgr.Times,
+             "bveq": mgr.Equals, "ueq": mgr.Equals, "uite": mgr.Ite, "plus": mgr.Plus, "minus": mgr.Minus, "times": mgr.Times,
              "bvult": mgr.BVULT, "bvule": mgr.BVULE, "bvslt": mgr.BVSLT, "bvadd": mgr.BVAdd, "bvsub": mgr.BVSub,
              "bvmul": mgr.BVMul, "bvand": mgr.BVAnd, "bvor": mgr.BVOr, "bvxor": mgr.BVXor, "bvnot": mgr.BVNot,
              "bvneg": mgr.BVNeg, "bvudiv": mgr.BVUDiv, "bvurem": mgr.BVURem, "bvshl": mgr.BVLShl, "bvlshr": mgr.BVLShr}
@@ -303,6 +334,7 @@ def holds(f, env):
             so = SYM_SORT[n]
             good = (isinstance(v, bool) if so == "Bool" else
                     (isinstance(v, int) and not isinstance(v, bool)) if so == "Int" else
+                    (isinstance(v, (tuple, list)) and len(v) == 3 and v[0] == "u") if is_usort(so) else
                     (isinstance(v, (tuple, list)) and len(v) == 3 and v[0] == "bv" and v[1] == BVW))
             if not good:
                 return False
